@@ -583,7 +583,7 @@ class Date(FormattableMixin, date):
         if day_of_week is None:
             return dt.set(day=1)
 
-        month = calendar.monthcalendar(dt.year, dt.month)
+        month = calendar.Calendar(calendar.MONDAY).monthdayscalendar(dt.year, dt.month)
 
         calendar_day = day_of_week
 
@@ -608,7 +608,7 @@ class Date(FormattableMixin, date):
         if day_of_week is None:
             return dt.set(day=self.days_in_month)
 
-        month = calendar.monthcalendar(dt.year, dt.month)
+        month = calendar.Calendar(calendar.MONDAY).monthdayscalendar(dt.year, dt.month)
 
         calendar_day = day_of_week
 
